@@ -379,7 +379,8 @@ impl PtraceDumper {
         // tool, so we poll the status.
         const POLL_INTERVAL: Duration = Duration::from_millis(1);
         let proc_file = format!("/proc/{}/stat", self.pid);
-        let end = Instant::now() + timeout;
+        // `None` when the timeout is too large to be added to the current time: wait indefinitely.
+        let end = Instant::now().checked_add(timeout);
 
         loop {
             if let Ok(ProcState::Stopped) = Stat::from_file(&proc_file)?.state() {
@@ -387,7 +388,7 @@ impl PtraceDumper {
             }
 
             std::thread::sleep(POLL_INTERVAL);
-            if Instant::now() > end {
+            if end.is_some_and(|end| Instant::now() > end) {
                 return Err(StopProcessError::Timeout);
             }
         }
